@@ -42,7 +42,9 @@ def check_options():
 
     if options.args().parser_test:
         # only parse and print
-        exprs = list(nodeio.parse_smtlib(open(options.args().infile).read()))
+        # newline='': as in ddsmt_main, line endings are not translated
+        with open(options.args().infile, 'r', newline='') as infile:
+            exprs = list(nodeio.parse_smtlib(infile.read()))
         print(nodeio.write_smtlib(sys.stdout, exprs))
         sys.exit(0)
 
